@@ -277,8 +277,23 @@ pub fn gen_transform(rng: &mut Rng, w: i32, h: i32, allow_singular: bool) -> Mat
         2 => raqote::Transform::translation(rng.range(-(e as i32), e as i32) as f32, rng.range(-(e as i32), e as i32) as f32),
         3 => raqote::Transform::translation(rng.f32_in(-e, e), rng.f32_in(-e, e)),
         4 => raqote::Transform::scale(rng.f32_in(0.25, 3.), rng.f32_in(0.25, 3.)),
-        5 => raqote::Transform::rotation(euclid::Angle::radians(rng.f32_in(-3.2, 3.2)))
-            .then_translate(euclid::vec2(rng.f32_in(0., e), rng.f32_in(0., e))),
+        5 => {
+            // similarity transforms: a rotation (now and then an exact quarter turn or the
+            // exchange of the axes), sometimes with a uniform scale, then a translation
+            let r = match rng.below(6) {
+                0 => raqote::Transform::new(0., 1., -1., 0., 0., 0.),
+                1 => raqote::Transform::new(0., -1., 1., 0., 0., 0.),
+                2 => raqote::Transform::new(0., 1., 1., 0., 0., 0.),
+                _ => raqote::Transform::rotation(euclid::Angle::radians(rng.f32_in(-3.2, 3.2))),
+            };
+            let r = if rng.chance(1, 3) {
+                let s = rng.pick(&[0.5f32, 2., 1.5, 0.75]);
+                r.then_scale(s, s)
+            } else {
+                r
+            };
+            r.then_translate(euclid::vec2(rng.f32_in(0., e), rng.f32_in(0., e)))
+        }
         6 => raqote::Transform::new(1., rng.f32_in(-1., 1.), rng.f32_in(-1., 1.), 1., 0., 0.),
         7 => {
             let t = raqote::Transform::scale(if rng.chance(1, 2) { -1. } else { 1. }, if rng.chance(1, 2) { -1. } else { 1. });
